@@ -182,6 +182,15 @@ def base_off12(ctx):
     return 1e12 + 100.0 * base_twopeak(ctx)
 
 
+def base_rise(ctx):
+    # increasing in the (first) coordinate: drives a search onto the upper face of the box, down to float resolution
+    return 2.0 * _x0(ctx) - 1.0
+
+
+def base_fall(ctx):
+    return 1.0 - 2.0 * _x0(ctx)
+
+
 def base_noisy(ctx):
     # a point-dependent reward plus a deterministic pseudo-noise of amplitude 0.5 (empirical variances keep changing)
     return base_twopeak(ctx) + 0.5 * math.sin(12.9898 * ctx.t * ctx.t + 1.0)
@@ -196,7 +205,7 @@ def base_noff6(ctx):
     return -1e6 + 3.0 * base_peak(ctx)
 
 
-BASES = {"noisy": base_noisy, "noff5": base_noff5, "noff6": base_noff6, "off8": base_off8, "off12": base_off12, "drift": base_drift, "bigpeak": base_bigpeak, "zero": base_zero, "neg": base_neg, "alt": base_alt, "peak": base_peak, "negpeak": base_negpeak,
+BASES = {"rise": base_rise, "fall": base_fall, "noisy": base_noisy, "noff5": base_noff5, "noff6": base_noff6, "off8": base_off8, "off12": base_off12, "drift": base_drift, "bigpeak": base_bigpeak, "zero": base_zero, "neg": base_neg, "alt": base_alt, "peak": base_peak, "negpeak": base_negpeak,
          "twopeak": base_twopeak}
 
 
